@@ -1000,6 +1000,9 @@ func (x *FnExec) evalCall(fr *frame, e *ECall, c *evalCtx) (Val, error) {
 	}
 	// pure functions
 	if pf, ok := x.eng.specs.Pure[e.Fun]; ok {
+		if pf.Axiom && c.loop == nil && c.at == nil {
+			return Val{}, fmt.Errorf("axiom %s may only be instantiated through a `use` clause", pf.Name)
+		}
 		if len(e.Args) != len(pf.Params) {
 			return Val{}, fmt.Errorf("%s: expected %d arguments", e.Fun, len(pf.Params))
 		}
